@@ -203,3 +203,78 @@ def make_cases(rng, n):
         dist["fixpoint"] += cfg["fixpoint"]
         dist["intercept"] += cfg["fit_intercept"]
     return cases, dist
+
+
+# ------------------------------------------------------------------ path()
+def run_real_path(M, cfg, alphas, w_init, sparse_X):
+    import skglm.solvers.anderson_cd as acd
+    saved = {k: getattr(acd, k) for k in ("_cd_epoch", "_cd_epoch_sparse", "construct_grad", "construct_grad_sparse",
+                                          "dist_fix_point_cd", "AndersonAcceleration", "np")}
+
+    def epoch_dense(X, y, w, Xw, lc, datafit, penalty, ws): M.epoch(w, Xw, ws)
+    def epoch_sparse(d, ip, ix, y, w, Xw, lc, datafit, penalty, ws): M.epoch(w, Xw, ws)
+    def cgrad(X, y, w, Xw, datafit, ws): return np.array([M.g_at(Xw, j) for j in ws])
+    def cgrad_s(d, ip, ix, y, w, Xw, datafit, ws): return np.array([M.g_at(Xw, j) for j in ws])
+    def fixp(w, grad, lip_ws, datafit, penalty, ws):
+        return np.array([abs(grad[idx]) * lip_ws[idx] for idx, j in enumerate(ws)])
+
+    class PathPenalty(MockPenalty):
+        @property
+        def alpha(self): return self.M.alpha
+        @alpha.setter
+        def alpha(self, v): self.M.alpha = float(v)
+
+    class PathDatafit(MockDatafit):
+        def gradient_scalar_sparse(self, *a): raise AssertionError
+    try:
+        acd._cd_epoch, acd._cd_epoch_sparse = epoch_dense, epoch_sparse
+        acd.construct_grad, acd.construct_grad_sparse, acd.dist_fix_point_cd = cgrad, cgrad_s, fixp
+        acd.AndersonAcceleration, acd.np = MockAccel, NpProxy()
+        p = M.p
+        X = np.eye(p)
+        if sparse_X:
+            X = sparse.csc_matrix(X)
+        solver = acd.AndersonCD(max_iter=cfg["max_iter"], max_epochs=cfg["max_epochs"], p0=cfg["p0"], tol=cfg["tol"],
+                                ws_strategy="fixpoint" if cfg["fixpoint"] else "subdiff", fit_intercept=cfg["fit_intercept"])
+        a0 = M.alpha
+        try:
+            res = solver.path(X, np.zeros(p), PathDatafit(M), PathPenalty(M), alphas=np.array(alphas),
+                              w_init=None if w_init is None else np.array(w_init, dtype=float))
+        except (ValueError, IndexError, TypeError, AttributeError, ZeroDivisionError) as e:
+            return None
+        finally:
+            M.alpha = a0
+        _, coefs, stops = res
+        return [(list(map(float, coefs[:, t])), float(stops[t])) for t in range(len(alphas))]
+    finally:
+        for k, v in saved.items():
+            setattr(acd, k, v)
+
+
+def make_path_cases(rng, n):
+    cases = []
+    for k in range(n):
+        p = rng.randint(1, 4)
+        M = Mock(rng, p)
+        fi = rng.random() < 0.5
+        cfg = dict(max_iter=rng.choice([1, 2, 3]), max_epochs=rng.choice([1, 3, 4, 7]), p0=rng.choice([1, 2, 10]),
+                   tol=rng.choice([0.0, 2 ** -10, 0.125]), fixpoint=rng.random() < 0.35, fit_intercept=fi)
+        alphas = [rng.choice([0.0, 0.25, 0.5, 1.0, 2.0]) for _ in range(rng.randint(1, 4))]      # any order, repeats allowed
+        D = [j / 4 for j in range(-6, 7)]
+        w_init = None
+        if rng.random() < 0.5:
+            w_init = [rng.choice(D + [0.0, 0.0, 0.0]) for _ in range(p + fi)]
+            if rng.random() < 0.3:
+                w_init = [0.0] * p + ([rng.choice([0.5, -1.0, 2.0])] if fi else [])      # empty support, non-zero intercept
+        obs = run_real_path(M, cfg, alphas, w_init, rng.random() < 0.4)
+        bb = (w_init[-1] if (w_init is not None and fi) else 0.0)
+        w0 = w_init if w_init is not None else [0.0] * (p + fi)
+        Xw0 = [w0[j] + bb for j in range(p)]
+        cfgc = ("{| max_iter := %d; max_epochs := %d; p0 := %s; tol := %s; fixpoint := %s; fit_intercept := %s; "
+                "n_features := %d; n_samples := %d |}" % (cfg["max_iter"], cfg["max_epochs"], z(cfg["p0"]), q(cfg["tol"]),
+                                                          b(cfg["fixpoint"]), b(cfg["fit_intercept"]), M.p, M.p))
+        expr = f"mock_path {cfgc} {M.coq()} {vq(alphas)} {vq(w0)} {vq(Xw0)}"
+        exp = "None" if obs is None else "(Some " + lst([f"({vq(w)}, {xq(s)})" for w, s in obs]) + ")"
+        cases.append((f"path#{k} cfg={cfg} alphas={alphas} w_init={w_init} T={M.T} a={M.a} lip={M.lip} pen={M.pen} B={M.B} pos={M.positive} thr={M.thr} -> {obs}",
+                      expr, "chk_path", exp))
+    return cases
